@@ -18,6 +18,7 @@
 #include <string.h>
 #include <sys/stat.h>
 #include <sys/types.h>
+#include <sys/resource.h>
 #include <sys/wait.h>
 #include <time.h>
 #include <unistd.h>
@@ -487,6 +488,13 @@ main(int argc, char *argv[])
                 dup2(fd, 2);
                 close(fd);
             }
+            { /* the limit is PROCESSOR time of the child (SIGXCPU), so that a loaded machine cannot make a slow parse
+               * look like an endless one; the parent's wall-clock guard below is twenty times as long */
+                struct rlimit rl;
+                rl.rlim_cur = (rlim_t)(limit + 0.999);
+                rl.rlim_max = (rlim_t)(limit + 0.999) + 2;
+                setrlimit(RLIMIT_CPU, &rl);
+            }
             child(fmt, b, n);
             _exit(3);
         }
@@ -499,7 +507,7 @@ main(int argc, char *argv[])
                 perror("waitpid");
                 return 3;
             }
-            if (now() - t0 > limit) {
+            if (now() - t0 > 20 * limit) {
                 kill(pid, SIGKILL);
                 waitpid(pid, &status, 0);
                 timed_out = 1;
@@ -507,7 +515,7 @@ main(int argc, char *argv[])
             }
             usleep(now() - t0 < 0.05 ? 500 : 5000);
         }
-        if (timed_out)
+        if (timed_out || (WIFSIGNALED(status) && (WTERMSIG(status) == SIGXCPU || WTERMSIG(status) == SIGKILL)))
             how = "timeout";
         else if (WIFSIGNALED(status)) {
             code = WTERMSIG(status);
